@@ -56,6 +56,9 @@ SumSeq(s) == IF Len(s) = 0 THEN 0 ELSE Head(s) + SumSeq(Tail(s))
 RECURSIVE SumFrom(_, _, _)
 SumFrom(f(_), i, n) == IF i > n THEN 0 ELSE f(i) + SumFrom(f, i + 1, n)
 
+RECURSIVE MaxFrom(_, _, _)
+MaxFrom(f(_), i, n) == IF i > n THEN 0 ELSE Max(f(i), MaxFrom(f, i + 1, n))
+
 \* fixed-point dot / cross of pairs <<x, y>>
 Dot(a, b)   == Mul(a[1], b[1]) + Mul(a[2], b[2])
 Cross(a, b) == Mul(a[1], b[2]) - Mul(a[2], b[1])
